@@ -94,6 +94,10 @@ func (cr *chunkedReader) Read(b []uint8) (n int, err error) {
 			}
 		}
 	}
+	if cr.err == io.EOF {
+		// the stream ended inside a chunk: only the last-chunk line ends the body
+		cr.err = io.ErrUnexpectedEOF
+	}
 	return n, cr.err
 }
 
